@@ -33,6 +33,7 @@ MENUS = {
     'dicts': lambda: [{'a': 1}, {'b': 2}, {'a': 3, 'c': 4}],
     'nested': lambda: [[[1], [2, [3]]], [[4]], []],
     'mixed': lambda: [1, 'a', [2]],
+    'withnone': lambda: [1, None, 2],
 }
 
 
@@ -88,7 +89,15 @@ def logging_add(a, b):
 
 
 INITS = {'int': int, 'float': float, 'list': list, 'tuple': tuple, 'str': str, 'dict': dict, 'odict': OrderedDict, 'bag': Bag}
-OPS = {'iadd': operator.iadd, 'add': operator.add, 'logadd': logging_add}
+def second(a, b):
+    return b          # may return None: the accumulator must become None, exactly as functools.reduce does
+
+
+def keep_if_even(a, b):
+    return None if (isinstance(b, int) and b % 2) else b
+
+
+OPS = {'iadd': operator.iadd, 'add': operator.add, 'logadd': logging_add, 'second': second, 'noneodd': keep_if_even}
 
 
 def mk_elems(menu, idxs):
@@ -145,7 +154,7 @@ def build(spec_term):
         return Flatten(sub, init=init), init
     if k == 'merge':
         init = mk_init(spec_term[2])
-        op = None if spec_term[3] is None else (spec_term[3] if spec_term[3] == 'update' else OPS[spec_term[3]])
+        op = None if spec_term[3] is None else (spec_term[3] if spec_term[3] == 'update' else operator.or_ if spec_term[3] == 'or' else OPS[spec_term[3]])
         return Merge(sub, init=init, op=op), init
     raise AssertionError(spec_term)
 
@@ -155,7 +164,7 @@ def reference(spec_term, items):
     k = spec_term[0]
     if k == 'fold':
         init = INITS.get(spec_term[2], tuple if spec_term[2] == 'counttuple' else list)
-        return functools.reduce({'iadd': operator.iadd, 'add': operator.add, 'logadd': operator.add}[spec_term[3]], items, init())
+        return functools.reduce({'iadd': operator.iadd, 'add': operator.add, 'logadd': operator.add, 'second': second, 'noneodd': keep_if_even}[spec_term[3]], items, init())
     if k == 'sum':
         init = INITS.get(spec_term[2], list)
         ret = functools.reduce(operator.iadd, items, init())
@@ -177,6 +186,9 @@ def reference(spec_term, items):
         if spec_term[3] in (None, 'update'):
             for v in items:
                 ret.update(v)
+        elif spec_term[3] == 'or':
+            for v in items:
+                operator.or_(ret, v)       # Merge ignores what the op returns: only in-place effects count
         else:
             for v in items:
                 operator.add(ret, v) if spec_term[3] == 'add' else operator.iadd(ret, v)
@@ -257,8 +269,9 @@ def run_case(case):
     seen = {}
     for t in inputs:
         mutable_ids(t, seen)
+    returns_argument = spec_term[0] == 'fold' and spec_term[3] in ('second', 'noneodd')     # these ops hand an input element back, as reduce() does
     for i, r in enumerate(results):
-        if isinstance(r, (list, dict, set, Bag)):
+        if isinstance(r, (list, dict, set, Bag)) and not returns_argument:
             if id(r) in seen:
                 return R({'expected': 'the result is a fresh object (not an input element, not an earlier result)', 'observed': 'result is %r' % (seen[id(r)],),
                           'spec': repr(spec), 'evaluation': i + 1}, 'ok')
@@ -355,6 +368,7 @@ def gen_specs():
             for op in (None, 'update'):
                 specs.append(['merge', sub, init, op])
         specs.append(['merge', sub, 'list', 'iadd'])
+        specs.append(['merge', sub, 'dict', 'or'])
     return specs
 
 
